@@ -17,7 +17,7 @@ if [ -n "$VERIF_REPO" ]; then
   cp harness/go.sum "${mf%.mod}.sum"
   modflag="-modfile=$mf"
 fi
-cleanup() { rm -f "$here/$bin" "$here/bin/go.$$.mod" "$here/bin/go.$$.sum"; [ -n "$rbin" ] && rm -f "$here/$rbin"; }
+cleanup() { [ -n "$bin" ] && rm -f "$here/$bin"; rm -f "$here/bin/go.$$.mod" "$here/bin/go.$$.sum"; [ -n "$rbin" ] && rm -f "$here/$rbin"; }
 if [ "$1" = "--build" ]; then
   (cd harness && go build $modflag -tags verif -o ../bin/vcheck ./cmd/vcheck && go build $modflag -race -tags verif -o ../bin/vcheck.race ./cmd/vcheck) || exit 2
   bin=""; rbin=""; cleanup; exit 0
